@@ -178,6 +178,38 @@ Proof.
     intros a b Ha Hb. right; right. now apply weight_vals_in.
 Qed.
 
+Lemma nodes_init_related {W W2} (R : W -> W2 -> Prop) zero zero2 labels :
+  R zero zero2 -> nodes_rel R (nodes_init zero labels) (nodes_init zero2 labels).
+Proof.
+  intros Hz. unfold nodes_rel, nodes_init.
+  cbn [n_cost n_pred n_label n_plabel n_status n_relevant n_order]. repeat split.
+  induction (length labels) as [|k IH]; cbn [repeat]; constructor; assumption.
+Qed.
+
+(* the prototype search alone *)
+Theorem find_prototypes_embedding_related {W W2} (ltb : W -> W -> bool) (ltb2 : W2 -> W2 -> bool) (f : W -> W2)
+        (zero top : W) (labels : list nat) (w : nat -> nat -> W) :
+  let n := length labels in
+  let vals := zero :: top :: weight_vals n w in
+  (forall a b, In a vals -> In b vals -> ltb2 (f a) (f b) = ltb a b) ->
+  nodes_rel (fun a z => In a vals /\ z = f a)
+            (find_prototypes ltb top n w (nodes_init zero labels))
+            (find_prototypes ltb2 (f top) n (fun p q => f (w p q)) (nodes_init (f zero) labels)).
+Proof.
+  intros n vals Hf.
+  rewrite (find_prototypes_ext_bounded ltb top n w (clip2 n zero w))
+    by (intros p q Hp Hq; symmetry; now apply clip2_below).
+  rewrite (find_prototypes_ext_bounded ltb2 (f top) n (fun p q => f (w p q))
+             (fun p q => f (clip2 n zero w p q)))
+    by (intros p q Hp Hq; now rewrite clip2_below).
+  apply (param_find_prototypes (fun a z => In a vals /\ z = f a) ltb ltb2).
+  - intros a z [Ha ->] a' z' [Ha' ->]. symmetry. now apply Hf.
+  - split; [right; now left | reflexivity].
+  - intros p q. split; [|reflexivity]. apply clip2_in; [now left|].
+    intros a b Ha Hb. right; right. now apply weight_vals_in.
+  - apply nodes_init_related. split; [now left | reflexivity].
+Qed.
+
 Section LiftedWeak.
   Context {W : Type} (P : W -> Prop) (ltb : W -> W -> bool).
   Hypothesis O : strict_weak_order_on P ltb.
